@@ -175,7 +175,7 @@ def run(facts, res):
     n4 = 0
     if m is not None:
         pe = facts.const_str("constants::PACK_EXTENSION")
-        for cb in facts.closures_of(m.path):
+        for cb in [m] + facts.closures_of(m.path):
             for bi, t in cb.calls():
                 if t.callee is None or t.callee.name != R.name("raw_write"):
                     continue
@@ -185,7 +185,9 @@ def run(facts, res):
                     n4 += 1
                     src = _view_source(data)
                     ok = src is not None and callee_name(src) == R.name("pack_loader")
-                    same = ok and bool({x[1] for x in walk(src[2][1]) if x[0] == "param"} & {x[1] for x in walk(key) if x[0] == "param"})
+                    def elem_ids(tt):
+                        return {("p", x[1]) for x in walk(tt) if x[0] == "param"} | {("n", x[3]) for x in walk(tt) if x[0] == "call" and callee_name(x) == "next"}
+                    same = ok and bool(elem_ids(src[2][1]) & elem_ids(key))
                     res.instance("N4", "%s: pack bytes written = unmodified result of the verified loader for the same id: %s" % (cb.path, ok and same), cb.loc(t.line))
                     if not (ok and same):
                         res.violation("N4", "meld|pack-not-copied-verbatim", "meld writes pack bytes that are not the unmodified result of try_load_pack for the same pack id (%s)" % fmt(data, 5), cb.loc(t.line))
